@@ -80,6 +80,18 @@ def lookup(f, k):
         return ("EXC", type(e).__name__, type(c).__name__ if c is not None else None, str(c if c is not None else e)[:160])
 
 
+def lookup_obj(f, k):
+    """like lookup, but the molecule object is handed back too"""
+    try:
+        with warnings.catch_warnings():
+            warnings.simplefilter("ignore")
+            m = f[k]
+        return observe(m), m
+    except Exception as e:
+        c = e.__cause__
+        return ("EXC", type(e).__name__, type(c).__name__ if c is not None else None, str(c if c is not None else e)[:160]), None
+
+
 def main(argv):
     paths = json.loads(open(argv[1]).read())
     res = {}
